@@ -653,12 +653,25 @@ func c16ReadAtEOF(r *core.Report) {
 				if !ok || be.Op != token.EQL {
 					continue
 				}
-				s := core.ExprStr(be)
 				if isEOF(be.X) || isEOF(be.Y) {
 					eof = true
 				}
-				if strings.Contains(s, "len(m.readers) - 1") || strings.Contains(s, "len(m.offsets) - 1") || strings.Contains(s, "len(m.readers)-1") || strings.Contains(s, "len(m.offsets)-1") {
-					last = true
+				// i == len(<receiver>.<slice field>) - 1
+				for _, side := range []ast.Expr{be.X, be.Y} {
+					sub, ok := core.Unparen(side).(*ast.BinaryExpr)
+					if !ok || sub.Op != token.SUB {
+						continue
+					}
+					if v, ok := core.ConstInt(info, sub.Y); !ok || v != 1 {
+						continue
+					}
+					if lc, ok := core.Unparen(sub.X).(*ast.CallExpr); ok && core.BuiltinName(info, lc) == "len" && len(lc.Args) == 1 {
+						if sel, ok := core.Unparen(lc.Args[0]).(*ast.SelectorExpr); ok {
+							if recv := f.Decl.Recv.List[0].Names; len(recv) == 1 && core.ObjOf(info, sel.X) == info.Defs[recv[0]] {
+								last = true
+							}
+						}
+					}
 				}
 			}
 			r.Check(last && eof, rule, fmt.Sprintf("%s#flag-set@%d", f.Key, nSet), pos(r, n.Ast), "the reached-end flag is set only when the last segment returns io.EOF",
